@@ -570,7 +570,9 @@ class ComponentLevel3( ComponentLevel2 ):
                   v_connected_in_parent = u in parent._dsl.adjacency and v in parent._dsl.adjacency[u]
                   assert u_connected_in_parent == v_connected_in_parent, "Please contact pymtl3 developers."
 
-                  assert u_connected_in_whost != u_connected_in_parent, "Please contact pymtl3 developers."
+                  # The connection may also have been made by a component further up
+                  # (neither the host nor its parent): that is an invalid loopback too
+                  assert not ( u_connected_in_whost and u_connected_in_parent ), "Please contact pymtl3 developers."
 
                   # We permit this loopback from parent level. Otherwise
                   # we throw an error
